@@ -26,7 +26,8 @@
     * the stop callback runs inline inside `stopCallback_.construct` when stop was already
       requested, i.e. BEFORE `epoll_ctl(ADD)`: the cancellation's `epoll_ctl(DEL)` finds nothing
       and the registration made afterwards survives the operation (history flag `bad = 2` when the
-      kernel later delivers an event for the dead operation);
+      kernel later delivers an event for the dead operation; `bad = 3` when it delivers a second event
+      for the not yet completed operation whose `execute_` is already null);
     * `complete_with_done` never destructs `stopCallback_`: the operation can complete (and be
       destroyed by its receiver) while `inplace_stop_source::request_stop` has not yet stored
       `callbackCompleted_` into that callback object (`bad = 1`).
@@ -77,6 +78,7 @@ structure OpSt where
   cb : Nat
   stopReq : Bool
   cEnq : Nat         -- completion_base::enqueued_
+  exec : Bool        -- completion_base::execute_ != nullptr (set when parking, cleared when the item is run)
   outcome : Nat      -- 0 none, 1 value, 2 done, 3 error
   val : Nat          -- byte count / error code
   completions : Nat  -- history
@@ -104,6 +106,8 @@ structure St where
   batch : List Item
   lpc : Nat
   cur : Item
+  rs : Bool          -- remoteQueueReadSubmitted_: the remote queue was found empty and marked inactive;
+                     -- the loop looks at it again only after the eventfd was reported by epoll_wait
   pend : Nat         -- syscall result carried to the completion: n bytes
   -- the kernel
   avail : Nat
@@ -114,13 +118,15 @@ structure St where
   fences : Nat
   bad : Nat          -- 0 ok; 1 the operation state was written after the operation completed;
                      -- 2 the kernel delivered an event for a completed operation (stale registration)
+                     -- 3 the kernel delivered a second event for an operation whose handler was already
+                     --   consumed (execute_ == nullptr): null function pointer call in execute_pending_local
   deriving DecidableEq, Repr
 
-def OpSt.init : OpSt := ⟨0, 0, 0, 0, false, 0, 0, 0, 0, false, 0, 0⟩
+def OpSt.init : OpSt := ⟨0, 0, 0, 0, false, 0, false, 0, 0, 0, false, 0, 0⟩
 
 def init (cfg : Config) : St :=
   { ops := List.replicate cfg.nOps OpSt.init, t0 := ⟨0, 0⟩, t2 := ⟨0, 0⟩, lq := [], rq := [], batch := [],
-    lpc := 0, cur := (0, 0), pend := 0, avail := cfg.avail0, reg := 0, calls := 0,
+    lpc := 0, cur := (0, 0), rs := false, pend := 0, avail := cfg.avail0, reg := 0, calls := 0,
     fenceIssued := 0, fences := 0, bad := 0 }
 
 def getOp (s : St) (i : Nat) : OpSt := s.ops.getD i OpSt.init
@@ -207,7 +213,7 @@ def stepScript (cfg : Config) (s : St) (t : Nat) : Option (Lbl × St) :=
 
 /-! #### the thread inside run() (T1) -/
 
-def stepLoop (cfg : Config) (s : St) : Option (Lbl × St) :=
+def stepLoopDet (cfg : Config) (s : St) : Option (Lbl × St) :=
   let i := s.cur.2
   let o := getOp s i
   match s.lpc with
@@ -219,24 +225,15 @@ def stepLoop (cfg : Config) (s : St) : Option (Lbl × St) :=
       let s1 := { s with batch := rest, cur := it }
       match it.1 with
       | 0 => some (tau 1, { s1 with lpc := 10 })
-      | 1 =>  -- --item->enqueued_
+      | 1 =>  -- --item->enqueued_; execute = std::exchange(item->execute_, nullptr)
         let s2 := touch s1 it.2
-        some (tau 1, { setOp s2 it.2 { getOp s2 it.2 with cEnq := 0 } with lpc := 20 })
+        some (tau 1, { setOp s2 it.2 { getOp s2 it.2 with cEnq := 0, exec := false } with lpc := 20 })
       | 2 => some (tau 1, { s1 with lpc := 30 })
       | _ => some (ev 1 "fence", { s1 with fences := s.fences + 1 })
-  | 2 =>  -- remote queue
-    if s.rq.isEmpty then some (tau 1, { s with lpc := 3 })
+  | 2 =>  -- if (!remoteQueueReadSubmitted_) remoteQueueReadSubmitted_ = try_schedule_local_remote_queue_contents()
+    if s.rs then some (tau 1, { s with lpc := 3 })
+    else if s.rq.isEmpty then some (tau 1, { s with rs := true, lpc := 3 })
     else some (tau 1, { s with lq := s.lq ++ s.rq.reverse, rq := [], lpc := 0 })
-  | 3 =>  -- epoll_wait
-    if s.reg ≠ 0 ∧ s.avail > 0 then
-      let j := s.reg - 1
-      if (getOp s j).freed then
-        -- event for a dead operation (the harness drops it and removes the registration)
-        some (tau 1, { s with bad := if s.bad = 0 then 2 else s.bad, reg := 0, lpc := 0 })
-      else
-        some (tau 1, { setOp s j { getOp s j with cEnq := 1 } with lq := s.lq ++ [(1, j)], lpc := 0 })
-    else if !s.rq.isEmpty || !s.lq.isEmpty then some (tau 1, { s with lpc := 0 })
-    else none
   -- ---- start_io()
   | 10 =>
     let r := sysResult cfg s o.len
@@ -254,7 +251,7 @@ def stepLoop (cfg : Config) (s : St) : Option (Lbl × St) :=
   | 13 => some (tau 1, { s with reg := 0, lpc := 16 })                            -- epoll_ctl(DEL)
   | 16 => some (tau 1, { s with rq := (2, i) :: s.rq, lpc := 14 })               -- schedule_remote(done_op)
   | 14 =>  -- execute_ = on_*_complete; epoll_ctl(ADD) (result ignored)
-    some (tau 1, { s with reg := if s.reg = 0 then i + 1 else s.reg, lpc := 1 })
+    some (tau 1, { setOp s i { o with exec := true } with reg := if s.reg = 0 then i + 1 else s.reg, lpc := 1 })
   | 15 =>  -- state_.fetch_add(io_flag)
     some (tau 1, { setOp s i { o with ioF := o.ioF + 1 } with lpc := if o.cancelF = 0 then 17 else 1 })
   | 17 => some (ev 1 s!"value{i} {s.pend}", { complete s i 1 s.pend with lpc := 1 })
@@ -286,9 +283,40 @@ def stepLoop (cfg : Config) (s : St) : Option (Lbl × St) :=
     else some (tau 1, { s1 with lq := s.lq ++ [(2, i)], lpc := 1 })
   | _ => none
 
+/-- the readiness event of the registered descriptor, as `acquire_completion_queue_items` handles it -/
+def opEvent (s : St) : St :=
+  let j := s.reg - 1
+  if (getOp s j).freed then
+    -- event for a dead operation (the harness drops it and removes the registration)
+    { s with bad := if s.bad = 0 then 2 else s.bad, reg := 0 }
+  else if !(getOp s j).exec then
+    -- a second readiness event for an operation whose handler already ran and returned without
+    -- epoll_ctl(DEL) (cancelled): execute_pending_local would call a null function pointer
+    -- (the harness drops the event and removes the registration)
+    { s with bad := if s.bad = 0 then 3 else s.bad, reg := 0 }
+  else { setOp s j { getOp s j with cEnq := 1 } with lq := s.lq ++ [(1, j)] }
+
+/-- epoll_wait (pc 3).  Ready: the registered descriptor (level triggered, `avail > 0`) and the
+    remote queue's eventfd.  The eventfd is written by the producer AFTER its enqueue, so when the
+    queue is non-empty the eventfd event may or may not be there yet; when nothing else is ready
+    the loop waits for it (it is certain to come: Proto/RemoteQueue).  With a non-empty local
+    queue the call does not block. -/
+def stepEpoll (s : St) : List (Lbl × St) :=
+  let evOp := s.reg ≠ 0 ∧ s.avail > 0
+  let evFd := s.rs ∧ !s.rq.isEmpty
+  if evOp ∧ evFd then
+    [(tau 1, { opEvent { s with rs := false } with lpc := 0 }), (tau 1, { opEvent s with lpc := 0 })]
+  else if evOp then [(tau 1, { opEvent s with lpc := 0 })]
+  else if evFd then [(tau 1, { s with rs := false, lpc := 0 })]
+  else if !s.lq.isEmpty then [(tau 1, { s with lpc := 0 })]
+  else []
+
+def stepLoop (cfg : Config) (s : St) : List (Lbl × St) :=
+  if s.lpc = 3 then stepEpoll s else (stepLoopDet cfg s).toList
+
 def sys (cfg : Config) : LSys St Lbl where
   init := init cfg
-  next s := (stepScript cfg s 0).toList ++ (stepLoop cfg s).toList ++ (stepScript cfg s 2).toList
+  next s := (stepScript cfg s 0).toList ++ stepLoop cfg s ++ (stepScript cfg s 2).toList
 
 def obsOf (l : Lbl) : Option String := l.2.map (fun txt => s!"T{l.1} {txt}")
 
@@ -328,9 +356,9 @@ def errTrue (s : St) : Bool :=
 def b2n (b : Bool) : Nat := if b then 1 else 0
 def encItems (l : List Item) : List Nat := l.length :: l.flatMap (fun it => [it.1, it.2])
 def encOp (o : OpSt) : List Nat :=
-  [o.len, o.ioF, o.cancelF, o.cb, b2n o.stopReq, o.cEnq, o.outcome, o.val, o.completions, b2n o.freed, o.sysOk, o.sysErr]
+  [o.len, o.ioF, o.cancelF, o.cb, b2n o.stopReq, o.cEnq, b2n o.exec, o.outcome, o.val, o.completions, b2n o.freed, o.sysOk, o.sysErr]
 def encSt (s : St) : List Nat :=
-  [s.t0.ip, s.t0.pc, s.t2.ip, s.t2.pc, s.lpc, s.cur.1, s.cur.2, s.pend, s.avail, s.reg, s.calls,
+  [s.t0.ip, s.t0.pc, s.t2.ip, s.t2.pc, s.lpc, s.cur.1, s.cur.2, b2n s.rs, s.pend, s.avail, s.reg, s.calls,
    s.fenceIssued, s.fences, s.bad, s.ops.length] ++ s.ops.flatMap encOp ++
   encItems s.lq ++ encItems s.rq ++ encItems s.batch
 
@@ -344,24 +372,24 @@ def decItemList (l : List Nat) : List Item × List Nat :=
   | [] => ([], [])
 def decOps : Nat → List Nat → List OpSt × List Nat
   | 0, r => ([], r)
-  | n+1, a :: b :: c :: d :: e :: f :: g :: h :: i :: j :: k :: l :: r =>
+  | n+1, a :: b :: c :: d :: e :: f :: x :: g :: h :: i :: j :: k :: l :: r =>
     let (os, r') := decOps n r
-    (⟨a, b, c, d, e == 1, f, g, h, i, j == 1, k, l⟩ :: os, r')
+    (⟨a, b, c, d, e == 1, f, x == 1, g, h, i, j == 1, k, l⟩ :: os, r')
   | _, r => ([], r)
 
 def decSt (l : List Nat) : St :=
   match l with
-  | a :: b :: c :: d :: lpc :: c1 :: c2 :: pend :: av :: reg :: calls :: fi :: fe :: bad :: no :: r =>
+  | a :: b :: c :: d :: lpc :: c1 :: c2 :: rs :: pend :: av :: reg :: calls :: fi :: fe :: bad :: no :: r =>
     let (ops, r1) := decOps no r
     let (lq, r2) := decItemList r1
     let (rq, r3) := decItemList r2
     let (bt, _) := decItemList r3
     { ops := ops, t0 := ⟨a, b⟩, t2 := ⟨c, d⟩, lq := lq, rq := rq, batch := bt, lpc := lpc, cur := (c1, c2),
-      pend := pend, avail := av, reg := reg, calls := calls, fenceIssued := fi, fences := fe, bad := bad }
+      rs := rs == 1, pend := pend, avail := av, reg := reg, calls := calls, fenceIssued := fi, fences := fe, bad := bad }
   | _ => { init ⟨false, [], [], 0, [], 0, 0⟩ with bad := 99 }
 
 def coded : Coded St :=
-  { enc := fun s => packNats 32 (encSt s), dec := fun n => decSt (unpackNats 32 120 n), M := 4093, W := 240 }
+  { enc := fun s => packNats 32 (encSt s), dec := fun n => decSt (unpackNats 32 120 n), M := 4093, W := 256 }
 
 /-! ### the scenario configurations (mirrored one-to-one by harness/rt/scn_c14.cpp) -/
 
